@@ -3,7 +3,7 @@
    Both store variants are covered: [e_keep E] = false is InMemoryStore.cloneConsumerGroup
    as it is today (drops SessionTimeoutMs / RebalanceTimeoutMs; that defect is C17's),
    true is the etcd codec / the fixed clone. *)
-From KS Require Import lib.Base model.Coordinator proofs.CoordinatorBase proofs.CoordinatorProofs proofs.CoordinatorTrace.
+From KS Require Import lib.Base model.Coordinator model.CoordinatorFaults proofs.CoordinatorBase proofs.CoordinatorProofs proofs.CoordinatorTrace proofs.CoordinatorFaults.
 Open Scope Z_scope.
 
 (* (1) for every reachable state (any history, failover at any point between requests):
@@ -57,6 +57,25 @@ Theorem C15_liveness_preserved : forall E h n0 n1 g k m,
      forall now, survives now g' m' = survives now g m).
 Proof. intros E h n0 n1 g k m. apply c15_liveness_preserved. apply run_inv. Qed.
 Print Assumptions C15_liveness_preserved.
+
+(* (1f) with transient store failures in the history: the view is preserved by a failover
+       exactly under the hypothesis the property itself needs -- the last whole-group write
+       succeeded ([synced]: the store holds the group that is in memory). [synced] holds
+       initially and is kept by every operation whose write does not fail; after a failed
+       write the store holds an older image and no coordinator can report the newer one. *)
+Theorem C15_view_preserved_under_store_faults : forall E h n0 n1 g,
+  synced E (runf E h) -> cur (runf E h) n0 = Some g ->
+  exists g', cur (failover (runf E h)) n1 = Some g' /\ same_view g g' /\
+             s_off (failover (runf E h)) = s_off (runf E h).
+Proof.
+  intros E h n0 n1 g Hy. apply (c15_view_preserved E). apply inv2_synced_inv; [apply runf_inv2|exact Hy].
+Qed.
+Print Assumptions C15_view_preserved_under_store_faults.
+
+Theorem C15_synced_kept_by_successful_writes : forall E h o f,
+  synced E (runf E h) -> f_persist f = false -> synced E (fst (stepf E (runf E h) o f)).
+Proof. intros E h o f. apply synced_after_step. apply runf_inv2. Qed.
+Print Assumptions C15_synced_kept_by_successful_writes.
 
 (* non-vacuity: a two-member Stable group with assignments; failover; same replies *)
 Example C15_nonvacuous :
